@@ -628,6 +628,17 @@ theorem conc_every_change_recorded (g : Conc.G) (t : Conc.Tid) (k : Key) (x : Na
       (p.isJoin = true ↔ x ∈ membersOf (Conc.step g t).st k) ∧ p.to = recipients g.st k :=
   Conc.change_recorded g t k x hch
 
+/-- **With the right actors.** Every record a region appends is sound for the state right after that
+region: every actor it reports as joined is a member of the group then, every actor it reports as having
+left is not. (A join's payload = the call's actors that were accepted, duplicates kept; a leave's payload =
+the caller's list verbatim, so it may name actors that were not members — the surplus is never a member
+afterwards.) -/
+theorem conc_payload_sound (g : Conc.G) (t : Conc.Tid) :
+    ∃ new, (Conc.step g t).changes = g.changes ++ new ∧ ∀ p ∈ new, ∀ x ∈ p.actors,
+      (p.isJoin = true → x ∈ membersOf (Conc.step g t).st (p.s, p.g)) ∧
+      (p.isJoin = false → x ∉ membersOf (Conc.step g t).st (p.s, p.g)) :=
+  Conc.payload_step g t
+
 /-- **No reverse-index leak under interleaving.** For every schedule: the reverse-index ENTRY of an actor
 whose exit has finished (or that was stopping from the start) exists only while some `monitor` /
 `monitor_scope` call naming it is between its `get_or_create_actor_relations` and the end of its re-check
@@ -728,3 +739,4 @@ end C11
 #print axioms C11.conc_every_change_recorded
 #print axioms C11.conc_inv
 #print axioms C11.conc_no_reverse_index_leak
+#print axioms C11.conc_payload_sound
